@@ -46,7 +46,7 @@ def run(ctx):
         "handlers obey the documented contract (Respond exactly once per ErrAsyncResponse, never for other requests); violations are explicit model actions only for the 'leak' cases",
         "AsyncCall ids are unique per connection (atomic c.seq); request refs are fresh allocations",
     ]
-    n_quick, n_thorough = 1000, 8000
+    n_quick, n_thorough = 1000, 30000
     common.standard(ctx, "GopModel.Props.C39", "c39", n_quick, n_thorough, RULE,
                     extract=("inflight",), driver="drv_inflight", post=post)
 
